@@ -125,6 +125,64 @@ theorem runnerRun_pairwise (evs : List REv) (w : Watermarker) : (runnerRun w evs
       simp only [runnerRun, runnerStep]
       exact List.Pairwise.cons (fun v hv => runnerRun_ge es w v hv) (ih w)
 
+/-! ### delivered stream -/
+
+theorem streamOK_append_evs (lat : Int) (ts : List Int) (m : Int) (s : List SEv) :
+    streamOK lat m (ts.map SEv.ev ++ s) ↔ streamOK lat (maxOf m ts) s := by
+  induction ts generalizing m with
+  | nil => simp [maxOf]
+  | cons t ts ih =>
+    simp only [List.map_cons, List.cons_append, streamOK, maxOf, List.foldl_cons]
+    exact ih (max m t)
+
+theorem sentStream_ok (evs : List REv) (w : Watermarker) : streamOK w.lateness w.maxTs (sentStream w evs) := by
+  induction evs generalizing w with
+  | nil => trivial
+  | cons e es ih =>
+    cases e with
+    | events ts =>
+      simp only [sentStream]
+      rw [streamOK_append_evs]
+      have h := foldl_advance ts w
+      have := ih (ts.foldl Watermarker.advanceTime w)
+      rw [h.1, h.2] at this
+      exact this
+    | tick =>
+      simp only [sentStream, streamOK]
+      refine ⟨?_, ih w⟩
+      simp [Watermarker.current, Facts.wmSlackNs]
+
+theorem streamOK_take (lat : Int) (k : Nat) (s : List SEv) (m : Int) (h : streamOK lat m s) :
+    streamOK lat m (s.take k) := by
+  induction s generalizing m k with
+  | nil => simp [streamOK]
+  | cons x xs ih =>
+    cases k with
+    | zero => simp [streamOK]
+    | succ k =>
+      cases x with
+      | ev t => simp only [List.take_succ_cons, streamOK] at h ⊢; exact ih k _ h
+      | wm v => simp only [List.take_succ_cons, streamOK] at h ⊢; exact ⟨h.1, ih k _ h.2⟩
+
+/-- the watermarks of a stream that satisfies `streamOK` never decrease and stay below the largest event before them -/
+theorem streamOK_wm_bounds (lat : Int) (hlat : 0 ≤ lat) (s : List SEv) (m : Int) (h : streamOK lat m s) :
+    ∀ v, SEv.wm v ∈ s → m - (lat + 1) ≤ v := by
+  induction s generalizing m with
+  | nil => intro v hv; cases hv
+  | cons x xs ih =>
+    intro v hv
+    cases x with
+    | ev t =>
+      simp only [streamOK] at h
+      rcases List.mem_cons.mp hv with e | e
+      · cases e
+      · have := ih _ h v e; omega
+    | wm u =>
+      simp only [streamOK] at h
+      rcases List.mem_cons.mp hv with e | e
+      · cases e; omega
+      · exact ih _ h.2 v e
+
 /-! ### upstream map -/
 
 def Ups.wf (u : Ups) : Prop := (u.map (·.1)).Nodup
